@@ -87,6 +87,20 @@ func extractEncode(fn *FuncNode) ([]encRule, []string) {
 			}
 			call, ok := ast.Unparen(ifs.Cond).(*ast.CallExpr)
 			if !ok {
+				// a sentinel test combined with anything else encodes the sentinel only
+				// sometimes; the decoder's table cannot agree with that
+				mentionsTest := false
+				ast.Inspect(ifs.Cond, func(n ast.Node) bool {
+					if c, ok := n.(*ast.CallExpr); ok {
+						if f := CalleeFunc(fn, c); f != nil && (f.Name() == "Is" || f.Name() == "CheapIs" || f.Name() == "As") {
+							mentionsTest = true
+						}
+					}
+					return true
+				})
+				if mentionsTest {
+					problems = append(problems, "encode branch whose condition is not a bare sentinel/type test at "+fn.Pkg.Fset.Position(ifs.Pos()).String()+": "+types.ExprString(ifs.Cond))
+				}
 				continue
 			}
 			f := CalleeFunc(fn, call)
@@ -335,6 +349,10 @@ func checkRegistries(r *Run, p *Prog) {
 		}
 		n++
 		for _, pr := range rp.Problems {
+			if strings.HasPrefix(pr, "encode branch whose condition") {
+				r.Ob("C14.R1.registry", "every encode branch of the registry in "+rp.Pkg+" tests exactly one sentinel or type", "", false, pr+" (the sentinel is then typed on the wire only sometimes; the decoder's table cannot follow that)")
+				continue
+			}
 			r.Undecide("C14.R1: registry in %s: %s", rp.Pkg, pr)
 		}
 		if len(rp.EncRules) == 0 || len(rp.DecRules) == 0 {
@@ -470,6 +488,53 @@ func checkMockExec(r *Run, p *Prog) {
 		return true
 	})
 	r.Ob("C14.R2.terminal", "mock exec substitutes only EOF for a nil handler result", p.Position(fn.Pos()), okSub, "")
+	// the terminal message never carries the "no error" payload: the receiving side
+	// decodes that to nil and would take the end of the stream for one more message
+	isTypeNilTest := func(atom ast.Expr) (eqMeansNil bool, ok bool) {
+		be, isBin := ast.Unparen(atom).(*ast.BinaryExpr)
+		if !isBin || (be.Op != token.EQL && be.Op != token.NEQ) {
+			return false, false
+		}
+		side := func(a, b ast.Expr) bool {
+			sel, ok := ast.Unparen(a).(*ast.SelectorExpr)
+			if !ok || sel.Sel.Name != "Type" || objOf(fn, sel.X) != payload {
+				return false
+			}
+			cs, ok := ast.Unparen(b).(*ast.SelectorExpr)
+			return ok && cs.Sel.Name == "TypeNil"
+		}
+		if side(be.X, be.Y) || side(be.Y, be.X) {
+			return be.Op == token.EQL, true
+		}
+		return false, false
+	}
+	if payload != nil && len(sends) > 0 {
+		def := c.NodesWhere(func(n ast.Node) bool {
+			as, ok := n.(*ast.AssignStmt)
+			return ok && as.Tok == token.DEFINE && len(as.Lhs) == 1 && objOf(fn, as.Lhs[0]) == payload
+		})
+		pathN := c.boolStateSearch(def, false,
+			func(n ast.Node, fact bool) (bool, bool) {
+				if as, ok := n.(*ast.AssignStmt); ok && as.Tok == token.ASSIGN && len(as.Lhs) == 1 && objOf(fn, as.Lhs[0]) == payload {
+					if call, ok := ast.Unparen(as.Rhs[0]).(*ast.CallExpr); ok && len(call.Args) >= 2 && certainErr(fn, call.Args[1], as) {
+						return true, false
+					}
+					return false, false
+				}
+				return fact, false
+			},
+			func(cond ast.Expr, val bool, fact bool) bool {
+				for _, f := range condFacts(fn, cond, val, 0) {
+					if eqMeansNil, ok := isTypeNilTest(f.Atom); ok {
+						return f.Val != eqMeansNil
+					}
+				}
+				return fact
+			},
+			func(n ast.Node, fact bool) bool { return isTerminalSend(n) && !fact })
+		r.ObPath("C14.R2.terminal", "mock exec never sends the 'no error' payload as the terminal message", p.Position(fn.Pos()), pathN == nil,
+			"a nil handler result must travel as EOF: the receiving side decodes a TypeNil payload to a nil error and hands the terminal message out as data", pathN)
+	}
 }
 
 func checkHTTPServerClose(r *Run, p *Prog) {
@@ -806,6 +871,221 @@ func checkSticky(r *Run, p *Prog) {
 			}
 		}
 		r.ObPath("C14.R3.sticky", sp.pkg+"."+sp.recv+".CloseSend marks the sending side closed before it sends the close", p.Position(fn.Pos()), ok, "a Send racing with CloseSend must be refused, not delivered after the close", path)
+	}
+	// the close marker the mock client sends is an encoded, certainly non-nil error
+	if fn := p.Func("freighter/mock", "ClientStream", "CloseSend"); fn != nil {
+		okEnc, n := true, 0
+		inspectNoLit(fn.Body, func(x ast.Node) bool {
+			ss, ok := x.(*ast.SendStmt)
+			if !ok {
+				return true
+			}
+			n++
+			cl, ok := ast.Unparen(ss.Value).(*ast.CompositeLit)
+			if !ok {
+				okEnc = false
+				return true
+			}
+			call, ok := ast.Unparen(litField(cl, "error")).(*ast.CallExpr)
+			if !ok || len(call.Args) < 2 || !certainErr(fn, call.Args[1], ss) {
+				okEnc = false
+			}
+			return true
+		})
+		r.Ob("C14.R3.sticky", "freighter/mock.ClientStream.CloseSend sends an encoded non-nil error as the close marker", p.Position(fn.Pos()), okEnc && n > 0, "the server's Receive decodes the marker and must get a non-nil terminal error")
+	}
+	// ... and Send hands nothing to the transport unless that mark is unset
+	for _, sp := range []spec{{"freighter/mock", "ClientStream", "Send", "sendErr"}, {"freighter/http", "clientStream", "Send", "sendClosed"}, {"freighter/grpc", "ClientStream", "Send", "closeSent"}} {
+		fn := p.Func(sp.pkg, sp.recv, sp.name)
+		fld := p.FieldOf(sp.pkg, sp.recv, sp.field)
+		if fn == nil || fld == nil {
+			r.Undecide("C14.R3: %s.%s / %s not found", sp.recv, sp.name, sp.field)
+			continue
+		}
+		c := p.CFG(fn)
+		unset := c.EdgesEstablishing(func(atom ast.Expr, val bool) bool {
+			if isF, trueMeansNil, ok := nilCompareField(fn, atom, fld); ok && isF {
+				return val == trueMeansNil
+			}
+			if sel, ok := ast.Unparen(atom).(*ast.SelectorExpr); ok && fieldVar(fn, sel) == fld {
+				return !val
+			}
+			return false
+		})
+		isTransport := func(n ast.Node) bool {
+			if _, ok := n.(*ast.SendStmt); ok {
+				return true
+			}
+			return nodeHasCall(fn, n, func(o types.Object, _ *ast.CallExpr) bool {
+				f, ok := o.(*types.Func)
+				return ok && (f.Name() == "send" || f.Name() == "Send") && f != fn.Obj
+			})
+		}
+		q, vis := c.ReachAvoiding([]Point{c.Entry()}, unset, nil)
+		ok := len(unset) > 0 && len(c.NodesWhere(isTransport)) > 0
+		var path []string
+		for _, s := range c.NodesWhere(isTransport) {
+			if vis[s] {
+				ok = false
+				path = q.PathTo(s)
+			}
+		}
+		r.ObPath("C14.R3.sticky", sp.pkg+"."+sp.recv+".Send reaches the transport only while the sending side is not marked closed", p.Position(fn.Pos()), ok, "a request delivered after CloseSend reaches the handler after its end-of-stream", path)
+	}
+	// a terminal message never comes back as data: past the edge on which the received
+	// message is recognised as terminal, every return carries an error that cannot be nil
+	for _, sp := range []struct {
+		pkg, recv, field, constName string
+		terminalWhenEqual           bool
+		// senderNormalises: the sending side never puts the "no error" payload on the wire
+		// (C14.R2.terminal for exec; CloseSend encodes the constant EOF), so Decode of a
+		// terminal message is not nil
+		senderNormalises bool
+	}{
+		{"freighter/mock", "ServerStream", "receiveErr", "TypeEmpty", false, true},
+		{"freighter/mock", "ClientStream", "receiveErr", "TypeEmpty", false, true},
+		{"freighter/http", "streamCore", "peerCloseErr", "WSMessageTypeClose", true, false},
+	} {
+		fn := p.Func(sp.pkg, sp.recv, "Receive")
+		fld := p.FieldOf(sp.pkg, sp.recv, sp.field)
+		if fn == nil || fld == nil {
+			r.Undecide("C14.R3: %s.%s.Receive / %s not found", sp.pkg, sp.recv, sp.field)
+			continue
+		}
+		c := p.CFG(fn)
+		isConst := func(e ast.Expr) bool {
+			switch v := ast.Unparen(e).(type) {
+			case *ast.Ident:
+				return v.Name == sp.constName
+			case *ast.SelectorExpr:
+				return v.Sel.Name == sp.constName
+			}
+			return false
+		}
+		terminal := c.EdgesEstablishing(func(atom ast.Expr, val bool) bool {
+			be, ok := ast.Unparen(atom).(*ast.BinaryExpr)
+			if !ok || (be.Op != token.EQL && be.Op != token.NEQ) || !(isConst(be.X) || isConst(be.Y)) {
+				return false
+			}
+			return (be.Op == token.EQL) == (val == sp.terminalWhenEqual)
+		})
+		construct := sp.pkg + "." + sp.recv + ".Receive answers a terminal message with a non-nil error on every path"
+		// every edge of a condition that reads the test decides it one way or the other
+		notTerminal := c.EdgesEstablishing(func(atom ast.Expr, val bool) bool {
+			be, ok := ast.Unparen(atom).(*ast.BinaryExpr)
+			if !ok || (be.Op != token.EQL && be.Op != token.NEQ) || !(isConst(be.X) || isConst(be.Y)) {
+				return false
+			}
+			return (be.Op == token.EQL) != (val == sp.terminalWhenEqual)
+		})
+		undecidedEdge := ""
+		for _, b := range c.G.Blocks {
+			cond := Cond(b)
+			if cond == nil {
+				continue
+			}
+			reads := false
+			ast.Inspect(cond, func(n ast.Node) bool {
+				if e, ok := n.(ast.Expr); ok && isConst(e) {
+					reads = true
+				}
+				return true
+			})
+			if !reads {
+				continue
+			}
+			for si := range b.Succs {
+				if !terminal[edge{b, si}] && !notTerminal[edge{b, si}] {
+					undecidedEdge = posOf(p, cond) + ": " + types.ExprString(cond)
+				}
+			}
+		}
+		if undecidedEdge != "" {
+			r.Ob("C14.R3.sticky", construct, p.Position(fn.Pos()), false, "the terminal-message test is combined with another condition at "+undecidedEdge+": on one of its edges a terminal message is not recognised and is handed out as data")
+			continue
+		}
+		if len(terminal) == 0 {
+			r.Ob("C14.R3.sticky", construct, p.Position(fn.Pos()), false, "no test of the received message against "+sp.constName)
+			continue
+		}
+		// product search: (point, "the terminal field is certainly non-nil")
+		type st struct {
+			pt     Point
+			nonNil bool
+		}
+		seen := map[st]bool{}
+		parent := map[st]st{}
+		var work []st
+		push := func(from, to st) {
+			if !seen[to] {
+				seen[to] = true
+				parent[to] = from
+				work = append(work, to)
+			}
+		}
+		for e := range terminal {
+			s0 := st{Point{e.B.Succs[e.Succ], -1}, false}
+			seen[s0] = true
+			work = append(work, s0)
+		}
+		isField := func(e ast.Expr) bool {
+			sel, ok := ast.Unparen(e).(*ast.SelectorExpr)
+			return ok && fieldVar(fn, sel) == fld
+		}
+		okT := true
+		var pathT []string
+		why := ""
+		for len(work) > 0 && okT {
+			cur := work[len(work)-1]
+			work = work[:len(work)-1]
+			b, idx, nn := cur.pt.B, cur.pt.I, cur.nonNil
+			if idx >= 0 && idx < len(b.Nodes) {
+				switch v := b.Nodes[idx].(type) {
+				case *ast.AssignStmt:
+					for i, l := range v.Lhs {
+						if isField(l) && len(v.Lhs) == len(v.Rhs) {
+							nn = certainErr(fn, v.Rhs[i], v)
+							if call, ok := ast.Unparen(v.Rhs[i]).(*ast.CallExpr); ok && sp.senderNormalises {
+								if f := CalleeFunc(fn, call); f != nil && f.Name() == "Decode" {
+									nn = true
+								}
+							}
+						}
+					}
+				case *ast.ReturnStmt:
+					if len(v.Results) == 2 {
+						last := v.Results[1]
+						if !(isField(last) && nn) && !certainErr(fn, last, v) {
+							okT = false
+							why = "returns " + types.ExprString(last) + ", which may be nil, for a terminal message"
+							for x, ok := cur, true; ok && len(pathT) < 30; x, ok = parent[x] {
+								if x.pt.I >= 0 && x.pt.I < len(x.pt.B.Nodes) {
+									pathT = append([]string{p.Position(x.pt.B.Nodes[x.pt.I].Pos())}, pathT...)
+								}
+							}
+						}
+					}
+					continue
+				}
+			}
+			if idx+1 < len(b.Nodes) {
+				push(cur, st{Point{b, idx + 1}, nn})
+				continue
+			}
+			cond := Cond(b)
+			for si, succ := range b.Succs {
+				n2 := nn
+				if cond != nil {
+					for _, f := range condFacts(fn, cond, si == 0, 0) {
+						if isF, trueMeansNil, ok := nilCompareField(fn, f.Atom, fld); ok && isF {
+							n2 = f.Val != trueMeansNil
+						}
+					}
+				}
+				push(cur, st{Point{succ, -1}, n2})
+			}
+		}
+		r.ObPath("C14.R3.sticky", construct, p.Position(fn.Pos()), okT, why+" (the caller would take the end of the stream for one more message)", pathT)
 	}
 	// gRPC adapters translate every transport error
 	tr := p.Func("freighter/grpc", "", "translateGRPCError")
